@@ -1398,3 +1398,123 @@ func ruleFindSchemaID(c *Ctx) []Obligation {
 	}
 	return obs
 }
+
+// ---------------------------------------------------------------- DEV.TYPEKIND (w10 observation C04/1)
+
+func init() {
+	register(&Rule{Name: "DEV.TYPEKIND", Props: []string{"C08", "C04"}, Floor: 1,
+		Doc: "a deviation gives a type only to a leaf or leaf-list: the store of Entry.Type on the target is under a test of the target's kind",
+		Run: ruleDevTypeKind})
+}
+
+func ruleDevTypeKind(c *Ctx) []Obligation {
+	const R = "DEV.TYPEKIND"
+	m, why := c.devModel()
+	if m == nil {
+		return []Obligation{undecided(R, "deviation applier model", "-", why)}
+	}
+	entry := c.MustNamed("yang", "Entry")
+	fType, fKind := FieldVar(entry, "Type"), FieldVar(entry, "Kind")
+	leafK, okL := int64(0), false
+	if k, _ := c.YangPkg().Scope().Lookup("LeafEntry").(*types.Const); k != nil {
+		_, err := fmt.Sscan(k.Val().ExactString(), &leafK)
+		okL = err == nil
+	}
+	if fType == nil || fKind == nil || !okL {
+		return []Obligation{undecided(R, "deviation applier model", "-", "Entry.Type / Entry.Kind / LeafEntry not found")}
+	}
+	var obs []Obligation
+	n := 0
+	for _, st := range c.storesToFieldDeep(m.fn, fType) {
+		_, _, base := fieldOf(st.Addr)
+		if base == nil || !sameObject(resolveArg(base), m.target) {
+			continue
+		}
+		n++
+		con := "ApplyDeviate: the target is given a type only if it is a leaf or leaf-list"
+		if n > 1 {
+			con = fmt.Sprintf("%s #%d", con, n)
+		}
+		// kindTest: the condition says (when it has the returned truth value) that the target is a leaf or leaf-list
+		kindTest := func(cond ssa.Value) (leafWhen bool, is bool) {
+			cond, br := stripNot(cond, true)
+			switch x := cond.(type) {
+			case *ssa.BinOp:
+				if _, f, b := loadedField(x.X); f == fKind && b != nil && sameObject(resolveArg(b), m.target) {
+					if k, isK := constInt(x.Y); isK && k == leafK {
+						switch x.Op {
+						case token.EQL:
+							return br, true
+						case token.NEQ:
+							return !br, true
+						}
+					}
+				}
+			case *ssa.Call:
+				if cal := x.Call.StaticCallee(); cal != nil && c.isRepoFn(cal) && len(x.Call.Args) > 0 && sameObject(resolveArg(x.Call.Args[0]), m.target) {
+					readsKind := false
+					eachInstr(cal, func(in ssa.Instruction) {
+						if v, isV := in.(ssa.Value); isV {
+							if _, f, _ := loadedField(v); f == fKind {
+								readsKind = true
+							}
+						}
+					})
+					if readsKind && strings.Contains(strings.ToLower(cal.Name()), "leaf") {
+						return br, true
+					}
+				}
+			}
+			return false, false
+		}
+		// from the first kind test that dominates the store, follow the "not a leaf" answers through the chain of
+		// kind tests (`!IsLeaf() && !IsLeafList()` is two of them): where that ends, the store must be out of
+		// reach for the rest of the iteration
+		guarded := false
+		sb := st.Block()
+		avoid := map[*ssa.BasicBlock]bool{}
+		for h := loopHeaderOf(sb); h != nil; h = loopHeaderOf(h.Idom()) {
+			avoid[h] = true
+			if h.Idom() == nil {
+				break
+			}
+		}
+		for _, b := range sb.Parent().Blocks {
+			ifi, isIf := b.Instrs[len(b.Instrs)-1].(*ssa.If)
+			if !isIf || !b.Dominates(sb) || guarded {
+				continue
+			}
+			leafWhen, is := kindTest(ifi.Cond)
+			if !is {
+				continue
+			}
+			cur, lw := b, leafWhen
+			for hops := 0; hops < 6; hops++ {
+				nonLeaf := cur.Succs[1]
+				if !lw {
+					nonLeaf = cur.Succs[0]
+				}
+				if nif, isN := nonLeaf.Instrs[len(nonLeaf.Instrs)-1].(*ssa.If); isN {
+					if lw2, is2 := kindTest(nif.Cond); is2 {
+						cur, lw = nonLeaf, lw2
+						continue
+					}
+				}
+				if nonLeaf != sb && !blockReaches(nonLeaf, sb, avoid) {
+					guarded = true
+				}
+				break
+			}
+		}
+		if guarded {
+			obs = append(obs, ok(R, con, c.InstrPos(st), "the store is under a test that the target's kind is LeafEntry"))
+		} else {
+			obs = append(obs, bad(R, con, c.InstrPos(st), "the type of the deviate statement is copied to any target: deviate replace { type string; } on a container is accepted and leaves a directory entry with a Type — kind, child map and type no longer agree, and nothing is reported"))
+		}
+	}
+	if n == 0 {
+		o := ok(R, "ApplyDeviate: no type is given to a target", c.Pos(m.fn.Pos()), "no store of Entry.Type on the target")
+		obs = append(obs, o)
+	}
+	return obs
+}
